@@ -151,8 +151,27 @@ func streamCommit(c *Ctx) {
 		}
 		c.commitCase(sc)
 	}
-	// placement independence: the same blob alone and behind other data
+	// placement independence: the same blob alone and behind other data; and independence of history:
+	// commitments and subtree roots computed earlier are recomputed after other blobs, sizes and thresholds
+	type heldC struct {
+		blob  *share.Blob
+		thr   int
+		com   []byte
+		roots string
+	}
+	var held []heldC
+	recheck := func(h heldC) {
+		c.oracle()
+		com, _ := inclusion.CreateCommitment(h.blob, simpleMerkle, h.thr)
+		r, _ := inclusion.GenerateSubtreeRoots(h.blob, h.thr)
+		if !bytes.Equal(com, h.com) || digList(r) != h.roots {
+			c.violate("C05", "", fmt.Sprintf("the commitment / subtree roots of a %d-byte blob at threshold %d differ from what the same call returned earlier in the process", len(h.blob.Data()), h.thr), "", nil)
+		}
+	}
 	for i := 0; i < c.n(40, 1000); i++ {
+		if len(held) > 0 {
+			recheck(held[c.rng.Intn(len(held))])
+		}
 		ns := c.userNamespaces(2)
 		spec := c.randBlob(ns[1], c.sparseLen(12), c.rng.Bool())
 		blob, _ := spec.blob()
@@ -170,5 +189,7 @@ func streamCommit(c *Ctx) {
 		if !bytes.Equal(alone, again) {
 			c.violate("C05", "", "the commitment of a blob changed after it was placed in a square", "", nil)
 		}
+		r0, _ := inclusion.GenerateSubtreeRoots(blob, thr)
+		held = append(held, heldC{blob, thr, alone, digList(r0)})
 	}
 }
